@@ -156,7 +156,8 @@ class PostgreSQLQueryBuilder(QueryBuilder):
         self._returns.append(function)
 
     def _returning_sql(self, ctx: SqlContext) -> str:
-        returning_ctx = ctx.copy(with_alias=True)
+        # like a select list: items define their aliases, a query among them is a bracketed subquery
+        returning_ctx = ctx.copy(with_alias=True, subquery=True)
         return " RETURNING {returning}".format(
             returning=",".join(term.get_sql(returning_ctx) for term in self._returns),
         )
